@@ -892,36 +892,6 @@ fn c16_roundtrip_1_1() {
     kani::cover!(special(a) && special(b), "both labels need care");
 }
 
-// @harness props=C16 tier=thorough mem=10 t=3400 fn="<Name as Display>::fmt,<Label as Display>::fmt,<Box<Name> as FromStr>::from_str,parse_escape"
-//   bound="every name of labels (1,2) octets (2^24 names); unwind 17" sym="a,b,c:u8"
-#[kani::proof]
-#[kani::unwind(17)]
-fn c16_roundtrip_1_2() {
-    let o: [u8; 3] = kani::any();
-    roundtrip(&[1, o[0], 2, o[1], o[2], 0]);
-    kani::cover!(special(o[0]) && special(o[1]) && special(o[2]), "all octets need care");
-}
-
-// @harness props=C16 tier=thorough mem=10 t=3400 fn="<Name as Display>::fmt,<Label as Display>::fmt,<Box<Name> as FromStr>::from_str,parse_escape"
-//   bound="every name of labels (2,1) octets (2^24 names); unwind 17" sym="a,b,c:u8"
-#[kani::proof]
-#[kani::unwind(17)]
-fn c16_roundtrip_2_1() {
-    let o: [u8; 3] = kani::any();
-    roundtrip(&[2, o[0], o[1], 1, o[2], 0]);
-    kani::cover!(special(o[0]) && special(o[1]) && special(o[2]), "all octets need care");
-}
-
-// @harness props=C16 tier=thorough mem=12 t=3400 fn="<Name as Display>::fmt,<Label as Display>::fmt,<Box<Name> as FromStr>::from_str,parse_escape"
-//   bound="every name of labels (2,2) octets (2^32 names); unwind 21" sym="a,b,c,d:u8"
-#[kani::proof]
-#[kani::unwind(21)]
-fn c16_roundtrip_2_2() {
-    let o: [u8; 4] = kani::any();
-    roundtrip(&[2, o[0], o[1], 2, o[2], o[3], 0]);
-    kani::cover!(special(o[0]) && special(o[1]) && special(o[2]) && special(o[3]), "all octets need care");
-}
-
 // --------------------------------------------------------------------------
 // (b) FromStr acceptance against a reference reader of RFC 1035 section 5.1
 //     / RFC 4343 section 2.1 text names
@@ -1244,36 +1214,6 @@ fn c16_labelbuf() {
 }
 
 // --------------------------------------------------------------------------
-// (d) the 63 / 64 label boundary end to end through FromStr, concrete text
-//     (the general argument is the one-step induction in name_builder.rs)
-// --------------------------------------------------------------------------
-
-// @harness props=C16 tier=thorough mem=6 t=3000 fn="<Box<Name> as FromStr>::from_str,NameBuilder::try_push,NameBuilder::next_label,NameBuilder::finish"
-//   bound="2 concrete texts: one label of 63 x's (accepted, 65-octet wire form) and one of 64 x's (rejected); unwind 68"
-//   sym="none (concrete boundary case)"
-#[kani::proof]
-#[kani::unwind(68)]
-fn c16_fromstr_label_63_64() {
-    let mut t63 = [b'x'; 64];
-    t63[63] = b'.';
-    // ASCII by construction
-    let text = unsafe { std::str::from_utf8_unchecked(&t63) };
-    match text.parse::<Box<Name>>() {
-        Ok(n) => {
-            assert!(n.wire_repr().len() == 65 && n.len() == 2, "[C16] FromStr accepts a 63-octet label");
-            assert!(n.wire_repr()[0] == 63 && n.wire_repr()[63] == b'x' && n.wire_repr()[64] == 0, "[C16] FromStr accepts a 63-octet label");
-            std::mem::forget(n);
-        }
-        Err(_) => assert!(false, "[C16] FromStr accepts a 63-octet label"),
-    }
-    let mut t64 = [b'x'; 65];
-    t64[64] = b'.';
-    let text = unsafe { std::str::from_utf8_unchecked(&t64) };
-    assert!(text.parse::<Box<Name>>().is_err(), "[C16] FromStr rejects a 64-octet label");
-    kani::cover!(true, "both texts parsed");
-}
-
-// --------------------------------------------------------------------------
 // (a) round trip for the larger shapes, split at a reference text
 //
 // Display -> FromStr in ONE query runs out of memory (> 8.8 GB RSS, 1.8 M
@@ -1285,6 +1225,9 @@ fn c16_fromstr_label_63_64() {
 //   parse_rendered_*:  FromStr(ref_render(wire)) has the wire form `wire`
 // Both quantify over the same set of names, so together they give
 // FromStr(Display(name)).wire == name.wire for every name of the shape.
+// (The reference text is a proof device: C16 itself only demands the round
+// trip, so a display_* failure alone would first have to be checked against
+// parse_rendered_* before it is called a defect.  Both halves pass.)
 // --------------------------------------------------------------------------
 
 struct Text {
@@ -1370,7 +1313,7 @@ fn c16_display_2_2() {
     kani::cover!(o[0] == b'a' && o[1] == b'.' && o[2] == 0xff && o[3] == b'\\', "one octet of each kind");
 }
 
-// @harness props=C16 tier=thorough mem=8 t=3400 fn="<Box<Name> as FromStr>::from_str,parse_escape,NameBuilder::try_push,NameBuilder::next_label,NameBuilder::finish"
+// @harness props=C16 tier=thorough mem=10 t=3400 fn="<Box<Name> as FromStr>::from_str,parse_escape,NameBuilder::try_push,NameBuilder::next_label,NameBuilder::finish"
 //   bound="every name of labels (2,2) octets (2^32 names): the reference text (7..=19 octets) parses to the same wire form; unwind 21" sym="o:[u8;4]"
 #[kani::proof]
 #[kani::unwind(21)]
@@ -1379,4 +1322,48 @@ fn c16_parse_rendered_2_2() {
     rendered_parses_back(&[2, o[0], o[1], 2, o[2], o[3], 0]);
     kani::cover!(special(o[0]) && special(o[1]) && special(o[2]) && special(o[3]), "all octets need care");
     kani::cover!(o[0] == b'a' && o[1] == b'.' && o[2] == 0xff && o[3] == b'\\', "one octet of each kind");
+}
+
+// @harness props=C16 tier=thorough mem=6 t=3400 fn="<Name as Display>::fmt,<Label as Display>::fmt"
+//   bound="every name of labels (1,2) octets (2^24 names): Display output equals the reference text; unwind 16" sym="o:[u8;3]"
+#[kani::proof]
+#[kani::unwind(16)]
+fn c16_display_1_2() {
+    let o: [u8; 3] = kani::any();
+    display_is_reference(&[1, o[0], 2, o[1], o[2], 0]);
+    kani::cover!(special(o[0]) && special(o[1]) && special(o[2]), "all octets need care");
+    kani::cover!(o[0] == b'.' && o[1] == 0xff && o[2] == b'\\', "one octet of each escaped kind");
+}
+
+// @harness props=C16 tier=thorough mem=6 t=3400 fn="<Name as Display>::fmt,<Label as Display>::fmt"
+//   bound="every name of labels (2,1) octets (2^24 names): Display output equals the reference text; unwind 16" sym="o:[u8;3]"
+#[kani::proof]
+#[kani::unwind(16)]
+fn c16_display_2_1() {
+    let o: [u8; 3] = kani::any();
+    display_is_reference(&[2, o[0], o[1], 1, o[2], 0]);
+    kani::cover!(special(o[0]) && special(o[1]) && special(o[2]), "all octets need care");
+    kani::cover!(o[0] == b'.' && o[1] == 0xff && o[2] == b'\\', "one octet of each escaped kind");
+}
+
+// @harness props=C16 tier=thorough mem=8 t=3400 fn="<Box<Name> as FromStr>::from_str,parse_escape,NameBuilder::try_push,NameBuilder::next_label,NameBuilder::finish"
+//   bound="every name of labels (1,2) octets (2^24 names): the reference text (6..=15 octets) parses to the same wire form; unwind 17" sym="o:[u8;3]"
+#[kani::proof]
+#[kani::unwind(17)]
+fn c16_parse_rendered_1_2() {
+    let o: [u8; 3] = kani::any();
+    rendered_parses_back(&[1, o[0], 2, o[1], o[2], 0]);
+    kani::cover!(special(o[0]) && special(o[1]) && special(o[2]), "all octets need care");
+    kani::cover!(o[0] == b'.' && o[1] == 0xff && o[2] == b'\\', "one octet of each escaped kind");
+}
+
+// @harness props=C16 tier=thorough mem=8 t=3400 fn="<Box<Name> as FromStr>::from_str,parse_escape,NameBuilder::try_push,NameBuilder::next_label,NameBuilder::finish"
+//   bound="every name of labels (2,1) octets (2^24 names): the reference text (6..=15 octets) parses to the same wire form; unwind 17" sym="o:[u8;3]"
+#[kani::proof]
+#[kani::unwind(17)]
+fn c16_parse_rendered_2_1() {
+    let o: [u8; 3] = kani::any();
+    rendered_parses_back(&[2, o[0], o[1], 1, o[2], 0]);
+    kani::cover!(special(o[0]) && special(o[1]) && special(o[2]), "all octets need care");
+    kani::cover!(o[0] == b'.' && o[1] == 0xff && o[2] == b'\\', "one octet of each escaped kind");
 }
